@@ -101,7 +101,7 @@ theorem tieA_set_modulation_params (self : Gen.PhyEnc1262.Sx126x) (m : Sx126x.Mo
   obtain ⟨nbw, rfl, h2⟩ := bw_byte _ _ hbw
   obtain ⟨ncr, rfl, h3⟩ := cr_byte _ _ hcr
   by_cases h5 : bw = Bandwidth._500KHz <;> (
-    gen_unfold_helpers_PhyEnc1262
+    try gen_unfold_helpers_PhyEnc1262
     phy_tie [h5] [Nat.mod_eq_of_lt h1, Nat.mod_eq_of_lt h2, Nat.mod_eq_of_lt h3])
 
 /-- non-vacuity: SF7 / 125 kHz / 4-5 on a device whose registers all read 0x25 -/
@@ -121,7 +121,7 @@ theorem tieA_set_packet_params (self : Gen.PhyEnc1262.Sx126x) (p : PacketParams)
   simp only at hlen
   simp only [Gen.PhyEnc1262.Sx126x.set_packet_params, genPkt, Sx126x.setPacketParams]
   cases ih <;> cases crc <;> cases iq <;> (
-    gen_unfold_helpers_PhyEnc1262
+    try gen_unfold_helpers_PhyEnc1262
     phy_tie [wrap_and255_nat, wrap_and255_div256, Int.reducePow, Int.reduceToNat, Nat.reducePow] [Rt.b2i, b2u, hi8, lo8, Nat.mod_eq_of_lt hlen, ofNat_toNat_mod, ofNat_toNat_div256])
 
 #print axioms tieA_set_packet_params
@@ -182,7 +182,7 @@ theorem tieA_set_tx_power_and_ramp_time_1262 (self : Gen.PhyEnc1262.Sx126x) (cfg
   have ht := tieA_pa_lookup_1262 power
   simp only [Gen.PhyEnc1262.Sx126x.set_tx_power_and_ramp_time, Sx126x.setTxPowerAndRampTime, Sx126x.Variant.highPower,
     Sx126x.Variant.paTable, Sx126x.Variant.deviceSel, Sx126x.setPaConfig]
-  gen_unfold_helpers_PhyEnc1262
+  try gen_unfold_helpers_PhyEnc1262
   cases hg : Gen.PhyArith.SX1262_PA_TABLE.lookup power with
   | none =>
     cases hm : Sx126x.sx1262Table.lookup power with
@@ -216,7 +216,7 @@ theorem tieA_set_tx_power_and_ramp_time_1261 (self : Gen.PhyEnc1261.Sx126x) (cfg
   have ht := tieA_pa_lookup_1261 power
   simp only [Gen.PhyEnc1261.Sx126x.set_tx_power_and_ramp_time, Sx126x.setTxPowerAndRampTime, Sx126x.Variant.highPower,
     Sx126x.Variant.paTable, Sx126x.Variant.deviceSel, Sx126x.setPaConfig]
-  gen_unfold_helpers_PhyEnc1261
+  try gen_unfold_helpers_PhyEnc1261
   cases mp with
   | some m =>
     have h0 := hfreq m rfl
@@ -284,5 +284,50 @@ theorem tieA_set_tx_power_and_ramp_time_1261 (self : Gen.PhyEnc1261.Sx126x) (cfg
           [RampTime.value, RampTime.toInt, Gen.PhyEnc1261.DeviceSel.toInt]
 
 #print axioms tieA_set_tx_power_and_ramp_time_1261
+
+/-! ## SetRfFrequency -/
+
+open Gen.PhyArith Rt in
+/-- the generated `convert_freq_in_hz_to_pll_step` in closed form (as `C17.pll126_closed`) -/
+theorem gen_pll_closed (f : Int) (h0 : 0 ≤ f) (h1 : f < 4096000000) :
+    Gen.PhyArith.Sx126x.convert_freq_in_hz_to_pll_step f = some ((f * 16384 + 7812) / 15625) := by
+  unfold Gen.PhyArith.Sx126x.convert_freq_in_hz_to_pll_step
+  rw [show SX126X_PLL_STEP_SCALED = 15625 by decide, show SX126X_PLL_STEP_SHIFT_AMOUNT = 14 from rfl]
+  rt_simp
+  rw [shlC_u32_14 (by omega) (by omega)]
+  simp only [Option.bind_some]
+  rw [shlC_u32_14 (by omega) (by omega), shrC_u32_1]
+  simp only [Option.bind_some]
+  rt_simp
+  congr 1
+  omega
+
+/-- the hand model's `pllStep` computes the same word (no overflow below 2^30 Hz) -/
+theorem model_pll_closed (f : Nat) (h : f < 1073741824) : Sx126x.pllStep f = some ((f * 16384 + 7812) / 15625) := by
+  unfold Sx126x.pllStep
+  have hr : f - f / 15625 * 15625 = f % 15625 := by omega
+  have h1 : f / 15625 * 16384 % 4294967296 = f / 15625 * 16384 := Nat.mod_eq_of_lt (by omega)
+  have h2 : f % 15625 * 16384 % 4294967296 = f % 15625 * 16384 := Nat.mod_eq_of_lt (by omega)
+  simp only [hr, h1, h2]
+  rw [if_pos (by omega)]
+  congr 1
+  omega
+
+/-- `Sx126x::set_channel` (with the regenerated `convert_freq_in_hz_to_pll_step`) IS the model's `setChannel`:
+SetRfFrequency with the four bytes of the PLL word, most significant first — every frequency below
+2^30 Hz (the chips reach 1.02 GHz), chip and prefix. -/
+theorem tieA_set_channel (self : Gen.PhyEnc1262.Sx126x) (f : Nat) (hf : f < 1073741824) (c : Chip) (log : List Rt.Phy.Ev) :
+    view id (Gen.PhyEnc1262.Sx126x.set_channel self (f : Int) chipDev c log) = denote (Sx126x.setChannel f) c log := by
+  have hg := gen_pll_closed (f : Int) (by omega) (by omega)
+  have hm := model_pll_closed f hf
+  have e : ((f : Int) * 16384 + 7812) / 15625 = (((f * 16384 + 7812) / 15625 : Nat) : Int) := by omega
+  rw [e] at hg
+  generalize (f * 16384 + 7812) / 15625 = p at hg hm
+  simp only [Gen.PhyEnc1262.Sx126x.set_channel, Sx126x.setChannel, hg, hm]
+  try gen_unfold_helpers_PhyEnc1262
+  phy_tie [Int.reducePow, Int.reduceToNat, Nat.reducePow, wrap_and255_nat, wrap_and255_div256, wrap_and255_div65536, wrap_and255_div16777216]
+    [ofNat_toNat_mod, ofNat_toNat_div256, ofNat_toNat_div65536, ofNat_toNat_div16777216]
+
+#print axioms tieA_set_channel
 
 end C13
